@@ -1,0 +1,30 @@
+//go:build verif
+
+package deployment
+
+import (
+	apps "k8s.io/api/apps/v1"
+	clientset "k8s.io/client-go/kubernetes"
+	appslisters "k8s.io/client-go/listers/apps/v1"
+	"k8s.io/client-go/tools/record"
+)
+
+// VerifNewControllerShared (build tag `verif` only): the per-deployment controller of d built by a controllerFactory that
+// another worker uses for another Deployment right afterwards - the schedule "worker 2's NewController lands between
+// worker 1's NewController and worker 1's sync" of the three concurrent workers that share the one factory.
+// No behaviour of its own.
+func VerifNewControllerShared(client clientset.Interface, recorder record.EventRecorder,
+	dLister appslisters.DeploymentLister, rsLister appslisters.ReplicaSetLister,
+	d *apps.Deployment, other *apps.Deployment) *DeploymentController {
+	f := &controllerFactory{
+		client:        client,
+		eventRecorder: recorder,
+		dLister:       dLister,
+		rsLister:      rsLister,
+	}
+	dc := f.NewController(d)
+	if other != nil {
+		_ = f.NewController(other)
+	}
+	return dc
+}
